@@ -15,3 +15,62 @@ pub(crate) fn list_messages(l: &ForeignMasterList) -> usize {
     if l.foreign_masters.len() > 1 { n += l.foreign_masters[1].announce_messages.len(); }
     n
 }
+
+// ================================================================================================
+// Recording replacement for `ForeignMasterList::register_announce_message` (used via #[kani::stub] by
+// the Announce-receive harnesses in harness/port): the list lives inside `Port`, and writing a 400-octet
+// record into a field of that struct is the same CBMC pathology as the packet buffer (DESIGN 8.1).
+// What the real function does with a registration is decided on a stand-alone list below.
+// ================================================================================================
+pub(crate) static mut REG_COUNT: u32 = 0;
+pub(crate) static mut REG_LAST: Option<(Header, AnnounceMessage, Duration)> = None;
+
+pub(crate) fn register_rec(_l: &mut ForeignMasterList, header: &Header, m: &AnnounceMessage, age: Duration) {
+    unsafe {
+        REG_COUNT += 1;
+        REG_LAST = Some((*header, *m, age));
+    }
+}
+
+pub(crate) fn reg_count() -> u32 { unsafe { REG_COUNT } }
+pub(crate) fn reg_last() -> Option<(Header, AnnounceMessage, Duration)> { unsafe { REG_LAST } }
+
+use crate::verif_root::gen::*;
+
+fn ti_one_second() -> TimeInterval {
+    TimeInterval(fixed::types::I48F16::from_num(1_000_000_000i64))
+}
+
+// @harness c07_foreign_master_registration
+// @props C07 C03 C11:thorough
+// @tier quick
+// @variant lists2
+// @timeout 1200
+// @mem 10
+// @functions ForeignMasterList::new, ForeignMasterList::register_announce_message, ForeignMasterList::is_announce_message_qualified, ForeignMaster::new, ForeignMasterList::get_foreign_master
+// @bounds stand-alone list (capacities scaled 8 -> 2), first registration of a fully symbolic Announce with any age, then the qualification verdict for a second fully symbolic Announce
+// @note the C06 fragment that is decidable: own clock identity and stepsRemoved >= 255 never enter the list; a newer sequence id (window of 2^15, across the 65535 -> 0 wrap) is required from a known master. Threshold, ageing and expiry (list walks) are outside (C06 is not applicable).
+#[kani::proof]
+#[kani::unwind(9)]
+fn c07_foreign_master_registration() {
+    let own = any_port_identity();
+    let mut l = ForeignMasterList::new(ti_one_second(), own);
+    let m1 = any_announce();
+    let age = any_duration_bits(64);
+    l.register_announce_message(&m1.header, &m1, age);
+    let q1 = m1.header.source_port_identity.clock_identity != own.clock_identity && m1.steps_removed < 255;
+    assert!(list_len(&l) == (q1 as usize), "announce of the own clock / with stepsRemoved >= 255 was recorded (or a qualified one was not)");
+    if q1 {
+        assert!(l.foreign_masters[0].foreign_master_port_identity == m1.header.source_port_identity);
+        assert!(l.foreign_masters[0].announce_messages.len() == 1 && l.foreign_masters[0].announce_messages[0].message == m1);
+    }
+    let m2 = any_announce();
+    let got = l.is_announce_message_qualified(&m2);
+    let src2 = m2.header.source_port_identity;
+    let newer = !(q1 && src2 == m1.header.source_port_identity) || m2.header.sequence_id.wrapping_sub(m1.header.sequence_id) < 32767;
+    let want = src2.clock_identity != own.clock_identity && m2.steps_removed < 255 && newer;
+    assert!(got == want, "qualification predicate differs from: not own clock, stepsRemoved < 255, newer sequence id");
+    kani::cover!(q1 && got && src2 == m1.header.source_port_identity && m2.header.sequence_id < m1.header.sequence_id, "sequence wrap-around accepted");
+    kani::cover!(q1 && !got && src2 == m1.header.source_port_identity && src2.clock_identity != own.clock_identity && m2.steps_removed < 255, "stale sequence id rejected");
+    core::mem::forget(l);
+}
